@@ -259,6 +259,15 @@ impl<F: Field> MulAddFusion<F> {
             return None;
         }
 
+        #[cfg(p3r_verif)]
+        crate::verif_trace::emit(&alloc::format!(
+            "\"ev\":\"fuse_candidate\",\"mul_idx\":{mul_idx},\"add_idx\":{add_idx},\"mul_result\":{},\"writers\":{},\"uses\":{},\"external\":{}",
+            mul_result.0,
+            self.out_writers.get(&mul_result).copied().unwrap_or(0),
+            self.uses(&mul_result),
+            self.external.contains(&mul_result)
+        ));
+
         let muladd = Op::Alu {
             kind: AluOpKind::MulAdd,
             a: mul_a,
